@@ -230,6 +230,43 @@ var plans = map[string]*Plan{
 			return "crash:" + crashClass(c), "the process running the rpc client/server died (" + c + ")"
 		},
 	},
+	"C07": clusterPlan("C07", 4, 3, 16, 8, map[string]int64{"rebuild_cycles": 4, "promotions_checked": 4, "stored_images_compared": 8, "writes_acknowledged": 1000},
+		"clusters of real processes (in-process controller with the real remote factory and REST server; jiva replica + jiva sync-agent processes on their own loopback addresses; RF 2-3, volumes of 4-12 MiB) run kill/stop -> detach -> restart -> rebuild cycles under 1-3 foreground writers at three intensities, with pre-failure histories incl. user snapshots; a third of the rebuilds are interrupted (SIGKILL of the rebuilding replica at the Addreplica / syncFiles / reloadAndVerify log markers, with or without its sync agent) and some lose their source; " +
+			"when the replica is first listed RW the writers are paused and (a) the whole volume is read once per reader position through the controller (so the promoted replica serves every chunk through its live block map), (b) extent-exact copies of the promoted and the source directory yield live image and every user snapshot (revert-on-copy): pairwise byte-identical and equal to the model, revision counters and chains equal; the sampled mode timeline must never show two WO replicas nor a restarted replica listed RW before WO; non-trivial = a cycle with acknowledged foreground writes; distinct = configuration + event count"),
+	"C19": clusterPlan("C19", 5, 1, 15, 4, map[string]int64{"clones_completed": 2, "clone_images_compared": 2, "clone_status_samples": 50, "failed_clones_observed": 1},
+		"two real volumes per scenario: a source (RF 1-2) with 2-5 user snapshots and further writes after the cloned snapshot S (S at every chain position across cases), and a new volume whose only replica is started with --type clone; variants (cycled over the cases): none, writes on the source during the copy, SIGKILL of the source replica(s) during the file sync, SIGKILL of the clone during the copy (each followed by a supervisor restart), and a clone of a snapshot that does not exist at the source (must end in an error status and never be served); " +
+			"the clone replica's REST state is sampled every 15 ms (mode RW implies status completed; the new controller holds its lock while polling so the replica side is where intermediate states are visible); at completion the full read through the new controller must equal the model image of S and revert-on-copy of the source directory, the clone's revision counter must equal the one recorded for S, and the clone must accept writes; distinct = configuration + event count"),
+}
+
+// clusterPlan: q/t = workers in quick/thorough, cases per worker.
+func clusterPlan(id string, qw, qc, tw, tc int, floor map[string]int64, rule string) *Plan {
+	return &Plan{
+		Level: "exploration", Rule: rule,
+		Assumptions: []string{
+			"schedules come from OS timing, seeded kill times, log-marker-triggered kills and foreground write intensity, not from enumeration",
+			"bounded waits (bring-up 120 s, rebuild/clone 240 s) that expire make a case inconclusive, never a violation",
+			"images are read from extent-exact copies of the live replica directories taken while the writers are paused",
+		},
+		Floor: floor,
+		Jobs: func(tier string) []Job {
+			w, c := qw, qc
+			if tier == "thorough" {
+				w, c = tw, tc
+			}
+			cyc := "2"
+			if tier == "thorough" {
+				cyc = "3"
+			}
+			return jobs("cluster", w, c, "bin={BIN},cycles="+cyc, time.Duration(tierN(tier, 20, 150))*time.Minute)
+		},
+		CrashSig: func(last, log string) (string, string) {
+			c := jivaCrash(log)
+			if c == "" {
+				return "", ""
+			}
+			return "controller-crash:" + crashClass(c), "the in-process controller died (" + c + ")"
+		},
+	}
 }
 
 func crashClass(c string) string {
